@@ -8,6 +8,7 @@ use zcash_client_backend::data_api::testing::{TestBuilder, TestState};
 use zcash_client_backend::data_api::{Account as _, WalletRead, WalletWrite};
 use zcash_client_sqlite::AccountUuid;
 use zcash_client_sqlite::pool_migration::orchard_ironwood::PoolMigrations;
+use zcash_client_sqlite::pool_migration::MigrationUuid;
 use zcash_client_sqlite::testing::{BlockCache, db::TestDb, db::TestDbFactory};
 use zcash_client_sqlite::util::SystemClock;
 use zcash_pool_migration::engine::{
@@ -35,6 +36,9 @@ pub struct SqlEnv {
     pub other_account: AccountUuid,
     /// the wallet's chain tip right after set-up (all scanned)
     pub home_tip: u32,
+    /// terminal migrations of earlier traces that were left in the database as the account's
+    /// retained history: (id, the state exactly as it was saved)
+    pub history: Vec<(MigrationUuid, MigrationState)>,
 }
 
 fn e<T: std::fmt::Debug>(x: T) -> String {
@@ -57,6 +61,7 @@ impl SqlEnv {
             account,
             other_account,
             home_tip,
+            history: vec![],
         }
     }
 
@@ -92,6 +97,21 @@ impl SqlEnv {
 
     pub fn latest(&self) -> Result<Option<MigrationState>, String> {
         self.store_ref(self.account)?.latest_migration().map_err(e)
+    }
+
+    /// The store-level cancel (works on the stored record, without the consumer's state).
+    pub fn cancel(&mut self) -> Result<(), String> {
+        let a = self.account;
+        self.store_mut(a)?.cancel_migration().map(|_| ()).map_err(e)
+    }
+
+    /// (id, status) of every migration of the account, newest first.
+    pub fn list(&self) -> Result<Vec<(MigrationUuid, zcash_pool_migration::engine::MigrationStatus)>, String> {
+        Ok(self.store_ref(self.account)?.list_migrations().map_err(e)?.iter().map(|m| (m.id(), m.status())).collect())
+    }
+
+    pub fn by_id(&self, id: MigrationUuid) -> Result<Option<MigrationState>, String> {
+        self.store_ref(self.account)?.get_migration_by_id(id).map_err(e)
     }
 
     pub fn update_transaction(&mut self, id: MigrationTransferId, state: MigrationTxState) -> Result<(), String> {
@@ -149,6 +169,7 @@ impl SqlEnv {
 
     /// Removes every migration row of the main account (between traces).
     pub fn wipe_account(&mut self) -> Result<(), String> {
+        self.history.clear();
         let c = self.conn();
         let ids: Vec<i64> = {
             let mut stmt = c
